@@ -831,7 +831,7 @@ impl<'a> crate::ranger::Store<SignedEntry> for StoreInstance<'a> {
                 // iterator for entries from range.x to range.y
                 let start = Bound::Included(range.x().to_byte_tuple());
                 let end = Bound::Excluded(range.y().to_byte_tuple());
-                let bounds = RecordsBounds::new(start, end);
+                let bounds = RecordsBounds::within_namespace(&self.namespace, start, end);
                 let iter = RecordsRange::with_bounds(&tables.records, bounds)?;
                 chain_none(iter)
             }
